@@ -138,7 +138,7 @@ def run_job(job):
         # the released execnet installed in the venv (an independent binary of the same dump format)
         assert "site-packages" in gb.__file__, gb.__file__
     else:
-        assert gb.__file__.startswith("/repo/src/"), gb.__file__
+        assert gb.__file__.startswith((os.environ.get("VERIF_REPO") or "/repo") + "/src/"), gb.__file__
     cases = []
     for m in job.get("dump", []):
         for mode in job.get("modes", ["dumps"]):
